@@ -42,16 +42,25 @@ func (g *customGen[V]) maybeValue(t *T) (v V, ok bool) {
 	t = newT(t.tb, t.s, flags.debug, nil)
 	t.parent = parent
 	defer func() {
-		if r := recover(); r != nil {
-			// a skip does not undo a non-fatal failure signaled before it, or by a cleanup function
-			if _, invalid := r.(invalidData); !invalid || t.Failed() {
-				panic(r)
+		r := recover()
+		if r == nil {
+			// a cleanup function that ran out of data after g.fn has returned rejects the attempt as well
+			t.mu.RLock()
+			noData := t.noData
+			t.mu.RUnlock()
+			if noData == nil {
+				return
 			}
-
-			// the attempt is rejected, also when it is a cleanup function that ran out of data after g.fn has returned
-			var zero V
-			v, ok = zero, false
+			r = *noData
 		}
+
+		// a skip does not undo a non-fatal failure signaled before it, or by a cleanup function
+		if _, invalid := r.(invalidData); !invalid || t.Failed() {
+			panic(r)
+		}
+
+		var zero V
+		v, ok = zero, false
 	}()
 
 	defer t.cleanup() // before the recover above: a failure signaled by a cleanup function is not part of a rejected attempt
